@@ -8,14 +8,15 @@
    - YouTube video / short ids, Instagram shortcodes and usernames and Telegram message ids inside a
      returned record satisfy the module's validators;
    - the truncated routes named in the statement parse to None (computed).
-   - Google Drive records parse back from the segments of their canonical url (route level).
+   - Google Drive records, and YouTube users / channels by id / shorts, parse back from the components of their
+     canonical url (route level).
    PARTIAL: re-parsing record.url (Facebook; Drive at url level) / normalize_youtube_url(u) gives the record back and
    normalize_youtube_url is idempotent: decided by the harness over the route grammar (known findings F-X20..22). *)
 From Coq Require Import String.
 From Coq Require Import List NArith.
 Import ListNotations.
 From UV Require Import Py.Val Py.Str Py.Regex Py.UrlLib Py.UrlLibFacts Gen.Patterns Gen.Tables Ural.Utils Ural.HostnameTrieSet
-  Ural.Predicates Ural.Platforms Proofs.C19 Proofs.C19b.
+  Ural.Predicates Ural.Platforms Proofs.C19 Proofs.C19b Proofs.C19c.
 Local Open Scope string_scope.
 Local Open Scope list_scope.
 
@@ -61,6 +62,21 @@ Theorem C19_drive_roundtrip : forall segs r,
   drive_route (drive_url_segments r) = Ok (Some r).
 Proof. exact drive_roundtrip. Qed.
 
+(* YouTube: the canonical urls of users, channels by id and shorts (host www.youtube.com, path = template path
+   followed by the field, no query, no fragment) parse back to the same record, for every field that is one clean
+   path segment (not empty, no '/', no white space; for shorts a valid id of at most 11 characters).  Videos
+   (query-carried) and channels by name are decided by the harness (known finding F-X22 for reserved names). *)
+Theorem C19_youtube_roundtrip : forall fix_ n,
+  seg_clean n ->
+  youtube_route fix_ yt_host (lit "/user/" ++ n) [] [] None = Ok (Some (mkrec "YoutubeUser" [None; Some n])) /\
+  youtube_route fix_ yt_host (lit "/channel/" ++ n) [] [] None = Ok (Some (mkrec "YoutubeChannel" [Some n; None])) /\
+  (is_youtube_video_id n = true -> (length n <= 11)%nat ->
+   youtube_route fix_ yt_host (lit "/shorts/" ++ n) [] [] None = Ok (Some (mkrec "YoutubeShort" [Some n]))).
+Proof.
+  intros fix_ n Hn.
+  exact (conj (youtube_user_roundtrip fix_ n Hn) (conj (youtube_channel_id_roundtrip fix_ n Hn) (youtube_short_roundtrip fix_ n Hn))).
+Qed.
+
 (* the truncated routes of the statement (and a well-formed url per platform, so that the above is not vacuous) *)
 Definition yt_trie : res hts := hts_build env0 YOUTUBE_DOMAINS hts_empty.
 Definition yt (u : string) : res (option record) :=
@@ -91,5 +107,6 @@ Print Assumptions C19_youtube_ids_valid.
 Print Assumptions C19_instagram_ids_valid.
 Print Assumptions C19_telegram_ids_valid.
 Print Assumptions C19_drive_roundtrip.
+Print Assumptions C19_youtube_roundtrip.
 Print Assumptions C19_truncated_routes.
 Print Assumptions C19_wellformed_urls.
